@@ -40,7 +40,6 @@ type rpcInfo struct {
 	served   bool // client got the response
 	gotErr   bool // client saw an error instead of a response
 	errAt    time.Time
-	failed   bool // the request could not even be written
 }
 
 type blockingCM struct {
@@ -308,9 +307,15 @@ func (tb *bed) send(p *rawPeer) *rpcInfo {
 		}
 	}
 	if err != nil {
+		// the syncer may close the stream (subnet over budget) before we have written the
+		// request: for the client that is the same observation as a failed read
 		tb.mu.Lock()
-		ri.failed = true
+		ri.gotErr = true
+		ri.errAt = time.Now()
 		tb.mu.Unlock()
+		if st != nil {
+			st.Close()
+		}
 		tb.bump()
 		return ri
 	}
